@@ -27,6 +27,8 @@ func init() {
 			c.run("C05-R8", "MUST-PASS: the wrapper's pumps hand on exactly what they read and end only on EOF", c05R8)
 			c.run("C05-R7", "ORDER: exit status passed on", c05R7)
 			c.run("C05-R9", "ORDER/GUARD-DOM: a transfer that stopped reading no longer queues the pump's output", stopLatchRule)
+			c.run("C05-R10", "LAUNCH: pumps and the handlers that wait on what the pumps deliver are started with go", c05Launch)
+			c.run("C05-R11", "TYPESTATE: the transfer worker signals completion last, so the handler gives the session up only when the worker is done", func(c *Ctx) { completionClosedLast(c, "TrzszFilter.", 1) })
 			c.run("C05-S2", "shared with C19-R1: header detection and the five-CAN cancel marker", c19R1)
 			c.run("C05-S1", "shared with C06-R3: the words that mark a finished transfer in scroll-back are the words the servers print (a replayed, finished handshake stays plain output)", c06R3)
 		})
